@@ -393,7 +393,8 @@ func auMode(r *rng.R, n int) {
 func main() {
 	tier := flag.String("tier", "quick", "quick|thorough")
 	seed := flag.Uint64("seed", 1, "seed")
-	mode := flag.String("mode", "au,mp,tr,ws", "which modes")
+	mode := flag.String("mode", "au,mp,tr,ws,wl", "which modes")
+	corpus := flag.String("corpus", "", "directory of directed cases (corpus/C10)")
 	flag.Parse()
 	defer out.Flush()
 	r := rng.New(*seed)
@@ -425,6 +426,12 @@ func main() {
 			trMode(rr, 60*scale, sub("tr"))
 		case "ws":
 			wsMode(rr, 12*scale)
+		case "wl":
+			cf := ""
+			if *corpus != "" {
+				cf = *corpus + "/wl.txt"
+			}
+			wlMode(rr, 60*scale, cf)
 		}
 		out.Flush()
 	}
